@@ -49,6 +49,31 @@ claim("C15",
       BOUNDED,
       "explicit-state BFS over add histories of the real estimator with state invariants and ghost min/max")
 
+claim("C02",
+      "Merge-tree exploration by intervals on the real collect()/merge(): for every word over 4-letter sub-alphabets of six adversarial alphabets (and 2-/3-letter alphabets to greater length) the set of ALL states producible by any composition into contiguous, possibly empty chunks and any binary merge tree, either merge direction at every node, is computed bottom-up and every state is judged against the exact statistics of the word under the single-pass envelopes; Mean, Variance, Skewness, Kurtosis, Moments4 and engine-defined define_moments! types of order 5, 6, 8, 10.",
+      BOUNDED + " Word length is bounded (5 quick / 6-9 thorough); long streams are not covered.",
+      "exhaustive bottom-up enumeration of all merge trees over all chunkings of every short word on the real code, exact-rational oracle on every reachable state")
+
+claim("C03",
+      "Bounded exhaustive exploration of the real Skewness/Kurtosis: every add-sequence over nine alphabets (asymmetric both ways, single outlier, two-point, arithmetic progression, offsets of 1e9 spreads) up to the depth bound; skewness, kurtosis and the re-exported mean/variances at every prefix against exact rational central moments under the section-4 envelopes.",
+      BOUNDED,
+      "explicit-state BFS over add histories of the real estimators, exact-rational reference oracle on every transition")
+
+claim("C04",
+      "Bounded exhaustive exploration of define_moments! types of order 4, 5, 6, 8, 10 (orders above 4 are instantiated by the engine; the suite never does): every add-sequence over nine alphabets up to the depth bound, len/mean/central_moment(p)/standardized_moment(p) for every p <= N at every prefix against exact rational central moments (C_p envelopes, domain n·max|x|^N < 1e300), plus agreement with Mean/Variance/Skewness/Kurtosis fed the same history.",
+      BOUNDED,
+      "explicit-state BFS over add histories of macro-generated estimators of several orders, exact-rational reference oracle on every transition")
+
+claim("C08",
+      "Bounded exhaustive exploration of the real WeightedMean/WeightedMeanWithError: every sequence of (x, w) pairs over product alphabets with a zero weight possible at every position (first included) and weights across twelve orders of magnitude, plus the all-merge-trees interval exploration with zero-weight chunks; every accessor against exact rational weighted sums whenever the exact total weight is positive.",
+      BOUNDED,
+      "explicit-state BFS over add histories plus exhaustive merge-tree enumeration on the real code, exact-rational oracle")
+
+claim("C09",
+      "Bounded exhaustive exploration of the real Covariance: every sequence over five pair alphabets (partial correlation, exactly collinear and anti-collinear, independent offsets, mixed magnitudes) and their swapped twins, plus the all-merge-trees interval exploration; all ten accessors against exact rational means, Sxx, Syy, Sxy; the swap clause is decided by judging the swapped stream against its own exact statistics.",
+      BOUNDED + " Covariance/pearson are judged only when both coordinates have non-zero spread (the envelope's scale is zero otherwise).",
+      "explicit-state BFS over add histories plus exhaustive merge-tree enumeration on the real code, exact-rational oracle")
+
 ALL = [f"C{i:02d}" for i in range(1, 21)]
 
 def main():
